@@ -99,6 +99,11 @@ META = {
              '--auto-delayed-regex), --continue, runner serial | thread k=1..3 x policy | process k=2; 22% of the serial/thread '
              'cases run the SAME namespace object 2-3 times in one process (same / other selection), monitors and '
              'model per run; '
+             'creator variants (wave 4): the creator yields dicts | RETURNS one dict | a Task object | None | raises; '
+             'bound-method creator; @task_params (default / value on the command line); executed = plain task | static '
+             'group | sub-task | delayed task | unknown task; created tasks with uptodate callables (modelled), setup / '
+             'calc_dep / getargs from a sub-task of the delayed group (outside M1+: monitors-only, counted as '
+             '`monitors-only(outside M1+):…`); '
              'non-trivial = a creator was evaluated; distinct = distinct rendered case + schedule'),
     'assumptions': ['up-to-date status is produced by uptodate=[True] on a fresh DB with existing targets',
                     'process-mode runs are sampled'],
@@ -719,7 +724,7 @@ def gen_case(rng, runner=None, knobs=None):
             executed = rng.choice(static)['name']       # a plain task, a group (`grp`) or a sub-task (`grp:a`)
         elif r < 0.8 and created_so_far:
             executed = rng.choice(created_so_far)
-        elif r < 0.82:
+        elif 0.8 <= r < 0.83:
             executed = 'nosuch'                         # a task that does not exist: InvalidTask when the command is set up
         regex = None
         if rng.random() < k.get('p_regex', 0.5):
